@@ -103,6 +103,21 @@ CHECKS["C08"]["text"] = "C07's histories on one project (plus a foreign party wh
 CHECKS["C12"]["text"] = "Seeded histories of sub-field writes (note controller/effect/XX/YY; the six visualization parts; MIDI-in always/channel; project sync flags), whole-word writes, primary note fields over their domains, whole-pattern byte images of valid cells (recurring within a run), grid-structure edits through the public list (replace a cell by a new Note, swap or reverse lines), writes through Note references taken once and held, worlds started from fixture projects (incl. an old-version file) and save -> restart -> load; after every write every sub-field of the touched word, Note.raw_data (documented 8-byte packing) and Pattern.raw_data (row-major join, checked before anything touches pattern.data again) are compared with an integer field model. Sweeps: every (old byte x 3 sibling bytes x new byte) triple of the four note sub-fields in the quick tier and every (16-bit old word, new byte) triple in the thorough tier; all small packed words."
 CHECKS["C14"]["text"] = "Seeded histories over 2-3 projects (fresh, or loaded from fixtures incl. one with a gap and one stamped with an old version) and a pool of free modules/patterns: attach_module, new_module, += (modules, patterns, lists incl. repeated members), attaching twice, attaching an object owned by another project (must raise the ownership error and leave the ownership snapshot of every project identical), attach_pattern (pattern/clone/None), note.mod get/set over the whole 16-bit module-number width (modules, gaps, zero, beyond the end), a project being adopted as the embedded project of a MetaModule with mappings, projects grown past 256 positions, and save -> restart -> load including files whose unlinked module sections were blanked to SEND; after every op index==position, parent, output-at-0 and the slot model (lowest empty position, else append; nothing else moves) are checked on every project."
 
+# rounds 5 and 6 (DESIGN §14): mechanisms shared by the history worlds
+_NOISE = " Interleaved in 20% of the histories: unrelated background loads in the same process (fixtures, generated and damaged files, other writer versions), most of them cut short by a read/seek fault, a truncation (also exactly at chunk boundaries) or a byte flip, their result thrown away."
+_BAD = " Also interleaved: operations that do not run to completion - refused or raising calls (out-of-range / wrong-typed controller values, foreign modules offered to attach/connect, raising user callables and generators, refused constructor keywords), saves cut short by a write fault or abandoned after k chunks (also swept over every write index / chunk in descending order), exports of an attached module as a Synth that are cut short, saves refused by the packer because of an unencodable value that is then put back; nothing is asserted about those operations themselves, only that the ordinary operations which follow still satisfy the oracle."
+for _p in ("C01", "C05", "C06", "C07", "C08", "C12", "C14", "C17", "C19"):
+    CHECKS[_p]["text"] += _NOISE
+for _p in ("C01", "C06", "C07", "C08", "C17"):
+    CHECKS[_p]["text"] += _BAD
+CHECKS["C01"]["text"] += " 30% of the restarts load the saved bytes twice: the first copy is scribbled over in place (every reachable primitive leaf changed, no container replaced) and dropped, the second load is the one that is judged."
+CHECKS["C05"]["text"] += " refused_save: an attribute briefly holds a value that does not fit its binary slot, the save is refused by the packer, the value is put back, and the next two saves must equal the last good one."
+CHECKS["C06"]["text"] += " 15% of the histories write the hash-colliding twin values -1 / -2 alternately to one signed scalar; 20% of the cycles start with save attempts of the loaded object that are cut short at every write index or abandoned after every chunk."
+CHECKS["C08"]["text"] += " 14% of the histories build their graphs inside the project embedded in a MetaModule (and around it in the host); every oracle is applied recursively to embedded projects."
+CHECKS["C12"]["text"] += " Pattern images that are refused (cut short), sparse images and clear() without looking at the grid afterwards are part of the alphabet."
+CHECKS["C14"]["text"] += " Restart files may have the exists bit of stored module flags cleared (position 0 must still hold the output module); stale module handles of a project object that was let go at a restart stay owned (the simulator runs the garbage collector at that point) and must be refused elsewhere; attached modules are exported as a Synth (complete / write fault / abandoned writer) without any change of ownership."
+CHECKS["C17"]["text"] += " scribble: an actor writes all over its own object graph in place and drops it (aliasing detector for interned parse results, records handed over by reference, reused buffers); borrow_fail: a failing bulk edit that was handed a live note of another actor's pattern; big-sample Samplers with boundary-biased sizes."
+
 PENDING = {}
 
 
